@@ -30,6 +30,10 @@ CLAIMS = {
             'writer is an encrypted buffer or a tag and the layer is stacked whenever ENCRYPT is enabled; the reader accepts a key only from the '
             'tag-verified Ok(Some) payload of retrieve_key, tries every candidate key, and fails otherwise. Absence of plaintext in the bytes and '
             'uniqueness of OS randomness are not decided.'),
+    'C12': (TECH_RULES, '§4 C12',
+            'Decides on all (constant-flag-sensitive) paths of helpers::linear_extract: Ok(()) only through the EndOfArchiveData arm and parse errors '
+            'propagate; content blocks are looked up by their own id, routed to export[name] or drained, always through take(src, length of this block); '
+            'names are registered only if chosen and unregistered at EndOfFile; the loop starts after a rewind. Byte equality with get_file is not decided.'),
 }
 
 NOT_APPLICABLE = {
